@@ -54,6 +54,22 @@ def defline(l):
     return ("#define %s %s" % (l["m"], " ".join(l["body"]))).rstrip()
 
 
+def d0_of(rec):
+    """(table, bare names) of the command-line definitions of a program; ({}, []) if none."""
+    d0 = rec.get("d0") or {}
+    tab = d0.get("tab") or {}
+    return (tab if isinstance(tab, dict) else {}), list(d0.get("bare") or [])
+
+
+def has_d0(rec):
+    return bool(d0_of(rec)[0])
+
+
+def dflags_of(rec):
+    tab, bare = d0_of(rec)
+    return [("-D" + n) if n in bare else dflag(n, tab[n]) for n in sorted(tab)]
+
+
 def dflag(name, d):
     """-D form of an initial (command-line) definition."""
     if d["fn"]:
@@ -62,10 +78,14 @@ def dflag(name, d):
     return "-D%s=%s" % (name, " ".join(d["body"]))
 
 
+TIGHT = set("(),")
+
+
 def layout(toks, style):
-    """Source spelling of a Text line.  Tokens are always separated by white space (the spec's #
-    operator spells one space between tokens); style > 0 spreads an invocation over several
-    physical lines and varies the amount of white space."""
+    """Source spelling of a Text line.  Tokens are separated by white space (the spec's # operator
+    spells one space between the tokens of an argument); style 1-3 spread an invocation over
+    several physical lines and vary the amount of white space; style 4 (only used for programs
+    without #) writes no white space next to parentheses and commas: F("a\\",'x')."""
     if style == 0:
         return " ".join(toks)
     out, depth = [], 0
@@ -76,15 +96,29 @@ def layout(toks, style):
         elif t == ")":
             depth -= 1
         if i + 1 < len(toks):
-            if style == 1 and depth > 0 and t in ("(", ","):
+            nxt = toks[i + 1]
+            if style == 4:
+                if not (t in TIGHT or nxt in TIGHT):
+                    out.append(" ")
+            elif style == 1 and depth > 0 and t in ("(", ","):
                 out.append("\n    ")
-            elif style == 2 and depth > 0 and toks[i + 1] in (")", ","):
+            elif style == 2 and depth > 0 and nxt in (")", ","):
                 out.append("  \n")
             elif style == 3:
                 out.append("\t " if i % 2 else "\n ")
             else:
                 out.append(" ")
     return "".join(out)
+
+
+def style_of(cid, k, rec):
+    """Deterministic layout choice (a function of the case, not of the seed)."""
+    n = (cid * 7 + k) % 8
+    if n == 4:
+        tab = d0_of(rec)[0]
+        bodies = [l["body"] for l in rec["p"] if l["k"] == "def"] + [tab[m]["body"] for m in tab]
+        return 4 if not any("#" in b for b in bodies) else 0
+    return n if n < 4 and cid % 2 == 0 else 0
 
 
 def render_case(cid, rec, keep, reset=True):
@@ -108,7 +142,7 @@ def render_case(cid, rec, keep, reset=True):
             out.append('#pragma pop_macro("%s")' % l["m"])
             depth[l["m"]] = max(0, depth.get(l["m"], 0) - 1)
         elif kind == "text" and k in keep:
-            out.append("CT%d %s ;" % (k, layout(l["toks"], (cid + k) % 4 if (cid % 3 == 0) else 0)))
+            out.append("CT%d %s ;" % (k, layout(l["toks"], style_of(cid, k, rec))))
     if reset:   # leave the push_macro stacks empty for the next case of the batch
         for m, n in sorted(depth.items()):
             out += ['#pragma pop_macro("%s")' % m] * n
@@ -148,12 +182,19 @@ def expected(o):
 
 
 # --------------------------------------------------------------------------- input classes
+OPEN = None      # ids of the finding classes that are still open (status "finding"); set by run_check
+
+
 def classes_of(rec, k):
-    """Finding classes of Text line k of a program: spec events of the reference run."""
-    cls = []
-    for e in rec["o"][k].get("e", []):
-        cls.append(EVENT_CLASS.get(e, "C08-" + e))
-    return sorted(set(cls))
+    """Finding classes of Text line k of a program, computed from the INPUT: events of the
+    reference run (dumped by the spec) and properties of the command line.  A class whose entry in
+    known_findings.json is no longer an open finding (fixed / removed) does not take lines out of
+    the claimed domain any more: its lines are replayed and must agree like all others."""
+    cls = [EVENT_CLASS.get(e, "C08-" + e) for e in rec["o"][k].get("e", [])]
+    if d0_of(rec)[1]:
+        cls.append("C08-bare-D")        # the program is run with a -DNAME option without a value
+    cls = sorted(set(cls))
+    return [c for c in cls if OPEN is None or c in OPEN]
 
 
 # --------------------------------------------------------------------------- running
@@ -169,13 +210,12 @@ class Replayer:
         return os.path.join(self.work, "%s%06d.c" % (tag, self.nfile))
 
     def dflags(self, cid):
-        d0 = self.recs[cid].get("d0") or {}
-        return [dflag(n, d0[n]) for n in sorted(d0)]
+        return dflags_of(self.recs[cid])
 
     def write(self, items, tag):
         """items: list of (cid, set of line indices) -> file; -D programs are run alone."""
         lines = []
-        single_d0 = len(items) == 1 and self.recs[items[0][0]].get("d0")
+        single_d0 = len(items) == 1 and has_d0(self.recs[items[0][0]])
         for cid, keep in items:
             lines += render_case(cid, self.recs[cid], keep, reset=not single_d0)
         p = self.path(tag)
@@ -419,8 +459,7 @@ def corpus_traces(ctx):
 
 
 def describe(rec, k):
-    d0 = rec.get("d0") or {}
-    pre = [dflag(n, d0[n]) for n in sorted(d0)]
+    pre = dflags_of(rec)
     lines = []
     for i, l in enumerate(rec["p"][:k + 1]):
         if l["k"] == "def":
@@ -455,10 +494,15 @@ def run_check(ctx):
     if res.verdict == "invariant":
         raise MachineryError("MacroRef: sanity invariant %s violated by the reference algorithm\n%s" % (res.violated, res.out[-2500:]))
     tlc.must_ok(res)
-    recs = canonical(tlc.read_dump(dump))
+    try:
+        recs = canonical(tlc.read_dump(dump))
+    except ValueError as e:
+        raise MachineryError("dump of MacroMC is not line-wise JSON (a record longer than TLC's atomic write?): %s" % e)
     if not recs:
         raise MachineryError("no programs dumped")
     rp = Replayer(ctx, recs)
+    global OPEN
+    OPEN = set(ctx.known)
     lap("tlc+load")
 
     # ---- the lines and their input classes
@@ -483,8 +527,8 @@ def run_check(ctx):
     fams = sorted(set(r["f"] for r in recs))
 
     # ---- spec sanity: gcc -E on EVERY line (claimed domain and finding classes alike)
-    solo = [cid for cid in lines_of if recs[cid].get("d0")]
-    shared = [cid for cid in sorted(lines_of) if not recs[cid].get("d0")]
+    solo = [cid for cid in lines_of if has_d0(recs[cid])]
+    shared = [cid for cid in sorted(lines_of) if not has_d0(recs[cid])]
     gjobs = [[(cid, lines_of[cid]) for cid in shared[i:i + GCC_BATCH]] for i in range(0, len(shared), GCC_BATCH)]
     gjobs += [[(cid, lines_of[cid])] for cid in solo]
     bad = []
@@ -506,12 +550,12 @@ def run_check(ctx):
     dom_of = {}
     for cid, k in domain:
         dom_of.setdefault(cid, set()).add(k)
-    shared = [cid for cid in sorted(dom_of) if not recs[cid].get("d0")]
+    shared = [cid for cid in sorted(dom_of) if not has_d0(recs[cid])]
     # the seed only permutes which cases share a batch
     rot = ctx.seed % max(1, len(shared))
     shared = shared[rot:] + shared[:rot]
     jobs = [[(cid, dom_of[cid]) for cid in shared[i:i + BATCH]] for i in range(0, len(shared), BATCH)]
-    jobs += [[(cid, dom_of[cid])] for cid in dom_of if recs[cid].get("d0")]
+    jobs += [[(cid, dom_of[cid])] for cid in dom_of if has_d0(recs[cid])]
     results = {}
     for sub in run.pmap(lambda items: rp.resolve(items, BATCH_TIMEOUT), jobs):
         results.update(sub)
